@@ -22,7 +22,8 @@ NT_RULE = ('history = initial (breakpoints, slopes) + <=6 insert/pop/reload oper
 REQUIRED_ORACLES = ['P1', 'P2', 'P3', 'P0', 'INV']
 REQUIRED_CLASSES = ['insert:below_second', 'insert:between', 'insert:equal', 'insert:above_last',
                     'pop:0', 'pop:inner', 'pop:last', 'pop:negative_index', 'bps:int_typed', 'slopes:all_int_fractional_breakpoints',
-                    'insert:just_below_existing', 'insert:just_above_existing', 'slope:zero', 'reload', 'reload_dict', 'eval:on_break', 'eval:beyond_last']
+                    'insert:just_below_existing', 'insert:just_above_existing', 'insert:typed_float32', 'insert:typed_float16',
+                    'insert:narrow_type_next_to_float64_neighbour', 'eval:dimensional', 'slope:zero', 'reload', 'reload_dict', 'eval:on_break', 'eval:beyond_last']
 REQUIRED_PROBES = ['PiecewiseCovEffect.insert', 'PiecewiseCovEffect.pop',
                    'PiecewiseCovEffect._set_intercepts', 'PiecewiseCovEffect.get_UoRT']
 ASSUMPTIONS = ['breakpoints in [0,1], first one 0, initial list strictly ascending; pop index in '
@@ -107,8 +108,18 @@ def generate(rng, tier):
     for _ in range(rng.randint(0, 6)):
         kind = rng.choices(['insert', 'pop', 'reload', 'reload_dict'], [5, 3, 1, 1])[0]
         if kind == 'insert':
-            where = rng.choice(['below_second', 'between', 'equal', 'above_last', 'any', 'near_existing'])
-            if where == 'near_existing':
+            where = rng.choice(['below_second', 'between', 'equal', 'above_last', 'any', 'near_existing', 'narrow_type'])
+            narrow = None
+            if where == 'narrow_type':
+                # a breakpoint typed np.float32 / np.float16 next to a float64 one that rounds to the same narrow value
+                import numpy as np
+                narrow = rng.choice(['float32', 'float32', 'float16'])
+                b0 = rng.choice([b for b in cur if b > 0] or [0.5])
+                xn = float(getattr(np, narrow)(b0))
+                x = xn if (xn not in cur and 0 < xn <= 1.0) else float(getattr(np, narrow)(_r(rng, 0.05, 0.95)))
+                if x in cur or not 0 < x <= 1.0:
+                    where, narrow, x = 'any', None, _r(rng, 0.0, 1.0)
+            elif where == 'near_existing':
                 # a hair below / above an existing breakpoint (0.7 - 0.4 next to 0.3): NOT equal to it
                 b0 = rng.choice(cur)
                 cands = [math.nextafter(b0, 2.0), b0 + 1e-9, b0 * (1 + 3e-6) + 1e-12, b0 + 1e-6]
@@ -133,7 +144,15 @@ def generate(rng, tier):
             if isinstance(bps[0], int) and rng.random() < 0.6:
                 x = 1                      # int-typed insertion at full coverage
             ops.append(['insert', x, rng.randint(-100, 100) if (int_slopes and rng.random() < 0.85) else
-                        rng.choice([_r(rng, -100, 100, 2)] * 5 + [0.0, 0])])
+                        rng.choice([_r(rng, -100, 100, 2)] * 5 + [0.0, 0])] + ([narrow] if narrow else []))
+            if narrow and rng.random() < 0.6:
+                # ... followed by a float64 neighbour inside the narrow type's rounding interval
+                import numpy as np
+                eps_ = {'float32': 3e-8, 'float16': 2e-4}[narrow]
+                y = x * (1 + rng.choice([-1, 1]) * eps_ * rng.choice([0.3, 0.5, 0.9]))
+                if 0 < y <= 1.0 and y not in cur and y != x:
+                    ops.append(['insert', y, _r(rng, -100, 100, 2)])
+                    cur = sorted(cur + [y])
             cur = sorted(cur + [x])
         elif kind == 'pop':
             i = rng.randint(0, len(cur) - 1)
@@ -163,7 +182,7 @@ def _inv_check(label, ret, snap):
     if ctx is None or obj is None or isinstance(obj, tuple):
         return
     try:
-        iv, sl, ic = list(obj.intervals), list(obj.slopes), list(obj._intercepts)
+        iv, sl, ic = [float(v) for v in obj.intervals], list(obj.slopes), list(obj._intercepts)
     except AttributeError:
         return
     mech = {'at': label}
@@ -204,7 +223,9 @@ def install_probes(pr, ctx):
 def _observe(ctx, obj, pairs, spec, after):
     """P1 state and P2 function against the model."""
     from pmutt import constants as c
-    iv, sl = list(obj.intervals), list(obj.slopes)
+    # numeric values of the breakpoints (a breakpoint may be typed np.float32 / np.float16: comparing such a scalar
+    # with a Python float happens in the narrow type under NumPy 2, so convert before comparing anything)
+    iv, sl = [float(v) for v in obj.intervals], list(obj.slopes)
     mech = {'after': after}
     ok = ctx.check('P1', sorted(zip(iv, sl)) == sorted(pairs) and iv == sorted(iv), mech,
                    intervals=iv, slopes=sl, model=pairs)
@@ -233,6 +254,14 @@ def _observe(ctx, obj, pairs, spec, after):
             for q, v in (('HoRT', h), ('GoRT', g), ('FoRT', f)):
                 if v is not core.NOVALUE:
                     ctx.check('P2', v == u, dict(mech, q=q), x=x, T=T, got=v, UoRT=u)
+            # in energy units the function does not depend on temperature: the dimensional getters with BOTH the
+            # coverage and the temperature given
+            if x == spec['xs'][1] or x == spec['xs'][-1]:
+                for q in ('get_U', 'get_H', 'get_F', 'get_G'):
+                    d = ctx.call('P2', dict(mech, q=q), getattr(obj, q), units='kcal/mol', x=x, T=T)
+                    if d is not core.NOVALUE:
+                        ctx.cls('eval:dimensional')
+                        ctx.close('P2', d, want, 1e-10, dict(mech, q=q), x=x, T=T)
     ctx.check('P0', obj.get_SoR() == 0.0 and obj.get_CvoR() == 0.0 and obj.get_CpoR() == 0.0,
               dict(mech, q='S/Cv/Cp'))
     return True
@@ -262,7 +291,14 @@ def run_case(spec, ctx):
                 shadows.pop(k_)
                 break
         if op[0] == 'insert':
-            _, x, s = op
+            x, s = op[1], op[2]
+            x_arg = x
+            if len(op) > 3:
+                import numpy as np
+                x_arg = getattr(np, op[3])(x)
+                if float(x_arg) != x:
+                    raise core.HarnessError('narrow-typed breakpoint not representable')
+                ctx.cls('insert:typed_' + op[3])
             bps = [p[0] for p in pairs]
             if x in bps:
                 where = 'equal'
@@ -274,9 +310,11 @@ def run_case(spec, ctx):
                 where = 'between'
             ctx.cls('insert:' + where)
             for b_ in bps:
+                if len(op) > 3 and x != b_ and abs(x - b_) <= {'float32': 6e-8, 'float16': 5e-4}[op[3]] * abs(b_):
+                    ctx.cls('insert:narrow_type_next_to_float64_neighbour')
                 if x != b_ and abs(x - b_) <= 1e-8 + 1e-5 * abs(b_):
                     ctx.cls('insert:just_below_existing' if x < b_ else 'insert:just_above_existing')
-            r = ctx.call('P1', {'after': 'insert:' + where}, obj.insert, x, s)
+            r = ctx.call('P1', {'after': 'insert:' + where}, obj.insert, x_arg, s)
             if r is core.NOVALUE:
                 return
             pairs = model_insert(pairs, x, s)
